@@ -615,6 +615,10 @@ fn default_writer(
             sval::stream_display(&mut *stream, self.0.tpl())?;
             stream.record_value_end(None, &sval::Label::new(KEY_TPL))?;
 
+            // If a property can't be streamed then fail the whole event
+            // Carrying on here would leave a partially written property behind
+            let mut r = Ok(());
+
             let _ = self.0.props().dedup().for_each(|k, v| {
                 match (|| {
                     stream.record_value_begin(None, &sval::Label::new_computed(k.get()))?;
@@ -624,9 +628,15 @@ fn default_writer(
                     Ok::<(), sval::Error>(())
                 })() {
                     Ok(()) => ControlFlow::Continue(()),
-                    Err(_) => ControlFlow::Break(()),
+                    Err(e) => {
+                        r = Err(e);
+
+                        ControlFlow::Break(())
+                    }
                 }
             });
+
+            r?;
 
             stream.record_end(None, None, None)
         }
